@@ -406,6 +406,11 @@ func c07Burst(c *core.Ctx, idx int) {
 	}
 	pre += "zzfirst();\n"
 	every := r.Chance(1, 2)
+	// half of the bursts use only the short malformed statements (2..3 tokens): errors a few tokens apart, many in a row
+	pool := gen.Benign[1:]
+	if r.Bool() {
+		pool = gen.Benign[1:17]
+	}
 	var clean, broken strings.Builder
 	clean.WriteString(pre)
 	broken.WriteString(pre)
@@ -414,7 +419,7 @@ func c07Burst(c *core.Ctx, idx int) {
 		clean.WriteString(b + "\n")
 		broken.WriteString(b + "\n")
 		if every || r.Chance(1, 2) {
-			m := gen.Benign[1+r.Intn(len(gen.Benign)-1)]
+			m := pool[r.Intn(len(pool))]
 			broken.WriteString(strings.Join(m, " ") + "\n")
 			inserted++
 		}
